@@ -24,6 +24,13 @@ fn meta_reply(v: Value) {
 }
 
 fn main() {
+    // diagnostics only: VNODE_LOG=<env-filter> sends the repo's tracing output to stderr
+    if let Ok(f) = std::env::var("VNODE_LOG") {
+        let _ = tracing_subscriber::fmt()
+            .with_env_filter(tracing_subscriber::EnvFilter::new(f))
+            .with_writer(std::io::stderr)
+            .try_init();
+    }
     // Record panics (any thread) with location on stderr for attribution.
     std::panic::set_hook(Box::new(|info| {
         let loc = info
@@ -212,15 +219,23 @@ fn main() {
                     meta_reply(node.fs(hash));
                 }
                 "clock" => {
+                    let now: u64 = parts.get(2).and_then(|x| x.parse().ok()).unwrap_or(0);
+                    let step: u64 = parts.get(3).and_then(|x| x.parse().ok()).unwrap_or(1);
                     match parts.get(1).copied() {
                         Some("auto") => {
-                            let now: u64 = parts.get(2).and_then(|x| x.parse().ok()).unwrap_or(0);
-                            let step: u64 = parts.get(3).and_then(|x| x.parse().ok()).unwrap_or(1);
                             hooks::set_clock(Clock::Auto { now, step });
+                            meta_reply(json!({"ok": true}));
                         }
-                        _ => hooks::set_clock(Clock::Real),
+                        Some("mono") => {
+                            // never backwards: max(requested, current scripted value)
+                            let v = hooks::set_clock_monotone(now, step);
+                            meta_reply(json!({"ok": true, "now": v}));
+                        }
+                        _ => {
+                            hooks::set_clock(Clock::Real);
+                            meta_reply(json!({"ok": true}));
+                        }
                     }
-                    meta_reply(json!({"ok": true}));
                 }
                 "trace" => match parts.get(1).copied() {
                     Some("on") => {
